@@ -252,7 +252,7 @@ def one(ctx, rng, ninputs):
 
 def plan(tier, seed):
     quick = tier == "quick"
-    return {"nshards": 16, "params": {"soft_s": 70 if quick else 800, "ninputs": 6 if quick else 12}, "hard_timeout_s": 400 if quick else 3000}
+    return {"nshards": 16, "params": {"soft_s": 300 if quick else 1200, "nprograms": 40 if quick else 450, "ninputs": 6 if quick else 12}, "hard_timeout_s": 700 if quick else 3400}
 
 
 def shard(ctx):
@@ -268,7 +268,8 @@ def shard(ctx):
 
     signal.signal(signal.SIGALRM, on_alarm)
     nprog = 0
-    while not ctx.out_of_time():
+    cap = int(ctx.params.get("nprograms", 10**9))
+    while nprog < cap and not ctx.out_of_time():
         nprog += 1
         rng = random.Random((ctx.seed * 1000003 + ctx.shard * 7919 + nprog * 104729) & 0xFFFFFFFF)
         ctx.rng = rng
